@@ -236,6 +236,10 @@ def run_life(life, var):
     snaps = [hl.snapshot(a2[0]), hl.snapshot(a2[1])]
     obj, obs, frame_ok = None, [], True
     new_err = "none"
+    try:
+        os.unlink(_tmpfile("pairs"))      # one pair file per life, re-used by its calls (an earlier file is then in the way)
+    except OSError:
+        pass
     if var["flavour"] == "matcher":
         try:
             obj = H.Matcher(var["depth"], a2[0], a2[1])
@@ -259,6 +263,9 @@ def run_life(life, var):
             if s1 != [hl.snapshot(a1[0]), hl.snapshot(a1[1]), hl.snapshot(rad)] or \
                     snaps != [hl.snapshot(a2[0]), hl.snapshot(a2[1])]:
                 frame_ok = False
+            cap = len(ra1) * len(ra2) + 1     # more entries than distinct pairs exist: already malformed, keep the record small
+            for key in ("m1", "m2", "dd", "mem1", "mem2"):
+                del o[key][cap:]
             o["d"] = []
             o["dev"] = []
             for x in o.pop("dd"):
@@ -538,6 +545,10 @@ def off_relations(case):
     radarg = rad if rad.size > 1 else float(rad[0])
     ref, refd = None, None
     k = case["k"]
+    try:
+        os.unlink(_tmpfile("off"))
+    except OSError:
+        pass
 
     def bad(rel, **kw):
         return dict(case, relation=rel, **kw)
@@ -740,7 +751,8 @@ def _conformance(ctx, T, only):
                 offbad.append(res)
         ctx.evaluations += noff
         ctx.log("off-lattice relations: %d cases, %d pairs, %d broken" % (noff, offstats["pairs"], len(offbad)))
-        if noff < T["off"] // 2 or offstats["pairs"] < noff:
+        nok = noff - len(offbad)
+        if noff < T["off"] // 2 or offstats["pairs"] < nok:
             raise MachineryError("off-lattice step vacuous: %d cases, %d pairs" % (noff, offstats["pairs"]))
         seen = {}
         for b in offbad:
